@@ -1,9 +1,10 @@
 #!/usr/bin/env python3
-"""Archives a confirmed seeded change: keep_seed.py <worktree> <n> <ID> <detected_by> <note>"""
+"""Archives a confirmed seeded change: keep_seed.py <worktree> <n> <ID> <detected_by> <note> [<archive index, default n>]"""
 import json, os, shutil, sys, glob
 wt, n, pid, detected, note = sys.argv[1:6]
+dst_n = sys.argv[6] if len(sys.argv) > 6 else n
 src = f"{wt}/out/{n}"
-dst = f"/verif/seeded/{pid}-{n}"
+dst = f"/verif/seeded/{pid}-{dst_n}"
 os.makedirs(dst, exist_ok=True)
 for f in glob.glob(src + "/*"):
     base = os.path.basename(f)
